@@ -1,6 +1,7 @@
 package main
 
 import (
+	"os"
 	"fmt"
 	"go/token"
 	"go/types"
@@ -164,6 +165,9 @@ func (w *World) runBlocks(fr *Frame, incoming map[*ssa.BasicBlock][]inEdge, rg *
 				}
 				// path ends (partial correctness)
 			default:
+				if fr.top {
+					w.curBlock = b
+				}
 				w.execInstr(fr, st, instr)
 			}
 		}
@@ -245,6 +249,7 @@ func (w *World) loopHead(fr *Frame, st *State, h *ssa.BasicBlock, k int) {
 			}
 			idxSort, _, isArr := arrayParts(w.heapSort[key])
 			precise := isArr && idxSort == SInt && !w.loopWhole[key]
+			freshOnly := w.loopFreshOnly[key]
 			var targets []Term
 			if precise {
 				for _, lt := range w.loopTargets[key] {
@@ -259,6 +264,9 @@ func (w *World) loopHead(fr *Frame, st *State, h *ssa.BasicBlock, k int) {
 					targets = append(targets, t)
 				}
 			}
+			if os.Getenv("GOAVC_DEBUG") != "" {
+				fmt.Fprintf(os.Stderr, "loop %d of %s: havoc %s precise=%v whole=%v freshOnly=%v targets=%d\n", k, fr.fn.Name(), key, precise, w.loopWhole[key], freshOnly, len(w.loopTargets[key]))
+			}
 			prev := w.hget(st, key)
 			nw := w.havocKey(st, key)
 			if precise {
@@ -267,7 +275,12 @@ func (w *World) loopHead(fr *Frame, st *State, h *ssa.BasicBlock, k int) {
 				for _, t := range targets {
 					except = append(except, eq(q, t))
 				}
-				guard := and(le(q, oa), not(or(except...)))
+				bound := oa
+				if freshOnly {
+					// in-place appends inside the loop may write arrays allocated after function entry only (checked)
+					bound = w.hget(fr.entry, allocKey)
+				}
+				guard := and(le(q, bound), not(or(except...)))
 				w.sc.assume(Term{fmt.Sprintf("(forall ((lf! Int)) (! (=> %s (= (select %s lf!) (select %s lf!))) :pattern ((select %s lf!))))", guard.S, nw.S, prev.S, nw.S), SBool})
 			}
 		}
@@ -282,6 +295,29 @@ func (w *World) loopHead(fr *Frame, st *State, h *ssa.BasicBlock, k int) {
 			nv := w.sc.fresh("c."+c.alloc.Comment+"~", w.sortOf(deref(c.alloc.Type())))
 			st.cells[c] = nv
 			w.assumeLoaded(st, &Val{T: nv, Typ: deref(c.alloc.Type())})
+		}
+	}
+	// compiler-generated range-over-slice loops: the hidden index satisfies
+	// -1 <= index <= len-1 at the head by construction (starts at -1, is
+	// incremented only after the test index+1 < len)
+	if h.Comment == "rangeindex.loop" {
+		for _, ins := range h.Instrs {
+			if cmp, ok := ins.(*ssa.BinOp); ok && cmp.Op == token.LSS {
+				if inc, ok := cmp.X.(*ssa.BinOp); ok && inc.Op == token.ADD {
+					if ld, ok := inc.X.(*ssa.UnOp); ok {
+						if a, ok := ld.X.(*ssa.Alloc); ok && a.Comment == "rangeindex" {
+							if cur, live := st.cells[cellID{fr.id, a}]; live {
+								if lv, ok := fr.vals[cmp.Y]; ok && lv.T.S != "" {
+									w.sc.assume(implies(st.cond, and(le(intLit(-1), cur), lt(cur, ite(le(intLit(0), lv.T), lv.T, intLit(0))))))
+									if lv.T.S != "" {
+										w.sc.assume(implies(st.cond, or(le(intLit(0), lv.T), eq(cur, intLit(-1)))))
+									}
+								}
+							}
+						}
+					}
+				}
+			}
 		}
 	}
 	for _, inv := range ls.Invariants {
@@ -410,6 +446,10 @@ func (w *World) loopDeterminism(fr *Frame, st *State, h *ssa.BasicBlock, k int, 
 // denotes the same value at the loop head (when the value cannot change in
 // the loop).
 func (w *World) loopInvariantTerm(fr *Frame, st *State, v ssa.Value, inLoop map[*ssa.BasicBlock]bool, assigned map[cellID]bool) (Term, bool) {
+	if a, ok := v.(*ssa.Alloc); ok && a.Heap && inLoop[a.Block()] {
+		// allocated inside the loop: never an object that existed at the loop head
+		return intLit(-1), true
+	}
 	switch x := v.(type) {
 	case *ssa.Parameter, *ssa.FreeVar, *ssa.Const, *ssa.Function, *ssa.Global:
 		if val, ok := fr.vals[v]; ok && val.T.S != "" {
@@ -479,6 +519,8 @@ func (w *World) loopWrites(fr *Frame, blocks []*ssa.BasicBlock) (cells []cellID,
 	seenK := map[string]bool{}
 	w.loopTargets = map[string][]loopTarget{}
 	w.loopWhole = map[string]bool{}
+	w.loopFreshOnly = map[string]bool{}
+	w.loopKeysExtra = nil
 	addKey := func(k string) {
 		if !seenK[k] {
 			seenK[k] = true
@@ -569,8 +611,16 @@ func (w *World) loopWrites(fr *Frame, blocks []*ssa.BasicBlock) (cells []cellID,
 		}
 	}
 	scan(fr.fn, fr.id, blocks, 0)
+	for _, k := range w.loopKeysExtra {
+		if !seenK[k] {
+			seenK[k] = true
+			keys = append(keys, k)
+		}
+	}
 	return
 }
+
+func addKeyQuiet(w *World, k string) { w.loopKeysExtra = append(w.loopKeysExtra, k) }
 
 // addStoreTargets classifies a store by the object it writes: a field of a
 // pointed-to object or an element of a slice gets a precise target, anything
@@ -595,6 +645,15 @@ func (w *World) addStoreTargets(addr ssa.Value, addKey func(string), addAt func(
 		if t, ok := x.X.Type().Underlying().(*types.Slice); ok {
 			addAt(w.elemsKey(w.sortOf(t.Elem())), x.X, true)
 			return
+		}
+		if pt, ok := x.X.Type().Underlying().(*types.Pointer); ok {
+			if at, ok := pt.Elem().Underlying().(*types.Array); ok {
+				// element of an array object: the object is the target (an
+				// array allocated inside the loop is fresh at every iteration,
+				// which the frame guard "allocated before the loop" covers)
+				addAt(w.elemsKey(w.sortOf(at.Elem())), x.X, false)
+				return
+			}
 		}
 		w.addStoreKeys(addr, addKey)
 	default:
@@ -656,7 +715,20 @@ func (w *World) callWrites(fr *Frame, fn *ssa.Function, c *ssa.CallCommon, addKe
 	scan func(fn *ssa.Function, frameID int, blocks []*ssa.BasicBlock, depth int)) {
 	if b, ok := c.Value.(*ssa.Builtin); ok {
 		switch b.Name() {
-		case "append", "copy":
+		case "append":
+			if len(c.Args) > 0 {
+				if st, ok := c.Args[0].Type().Underlying().(*types.Slice); ok {
+					if depth == 0 && fn == fr.fn && fr.top {
+						// in-place appends are checked (obligation) to hit only arrays
+						// allocated since function entry: the loop frame keeps older ones
+						w.loopFreshOnly[w.elemsKey(w.sortOf(st.Elem()))] = true
+						addKeyQuiet(w, w.elemsKey(w.sortOf(st.Elem())))
+					} else {
+						addKey(w.elemsKey(w.sortOf(st.Elem())))
+					}
+				}
+			}
+		case "copy":
 			if len(c.Args) > 0 {
 				if st, ok := c.Args[0].Type().Underlying().(*types.Slice); ok {
 					addKey(w.elemsKey(w.sortOf(st.Elem())))
